@@ -28,16 +28,16 @@ FILL_BYTES = [0xbe, 0x0a, 0x00, 0x20, 0xff, 0x22, 0x5c]
 SHARD_TIMEOUT = 1500
 
 SUBS = [
-    dict(name="json", quick=dict(cases=14000, shards=4), thorough=dict(cases=60000, shards=7)),
-    dict(name="b64", quick=dict(cases=28000, shards=2), thorough=dict(cases=130000, shards=3)),
-    dict(name="hex", quick=dict(cases=14000, shards=2), thorough=dict(cases=70000, shards=3)),
-    dict(name="hsize", quick=dict(cases=36000, shards=2), thorough=dict(cases=170000, shards=3)),
-    dict(name="parsenum", quick=dict(cases=28000, shards=3), thorough=dict(cases=140000, shards=7)),
-    dict(name="sockres", quick=dict(cases=17000, shards=3), thorough=dict(cases=85000, shards=7)),
-    dict(name="sockde", quick=dict(cases=36000, shards=2), thorough=dict(cases=160000, shards=3)),
-    dict(name="awskeys", quick=dict(cases=12000, shards=3), thorough=dict(cases=60000, shards=7)),
-    dict(name="readpass", quick=dict(cases=11000, shards=3), thorough=dict(cases=55000, shards=7)),
-    dict(name="getopt", quick=dict(cases=40000, shards=3), thorough=dict(cases=200000, shards=7)),
+    dict(name="json", quick=dict(cases=14000, shards=4), thorough=dict(cases=45000, shards=7)),
+    dict(name="b64", quick=dict(cases=28000, shards=2), thorough=dict(cases=97000, shards=3)),
+    dict(name="hex", quick=dict(cases=14000, shards=2), thorough=dict(cases=52000, shards=3)),
+    dict(name="hsize", quick=dict(cases=36000, shards=2), thorough=dict(cases=127000, shards=3)),
+    dict(name="parsenum", quick=dict(cases=28000, shards=3), thorough=dict(cases=105000, shards=7)),
+    dict(name="sockres", quick=dict(cases=17000, shards=3), thorough=dict(cases=63000, shards=7)),
+    dict(name="sockde", quick=dict(cases=36000, shards=2), thorough=dict(cases=120000, shards=3)),
+    dict(name="awskeys", quick=dict(cases=12000, shards=3), thorough=dict(cases=45000, shards=7)),
+    dict(name="readpass", quick=dict(cases=11000, shards=3), thorough=dict(cases=41000, shards=7)),
+    dict(name="getopt", quick=dict(cases=40000, shards=3), thorough=dict(cases=150000, shards=7)),
     dict(name="jsondeep", quick=dict(cases=40, shards=1), thorough=dict(cases=200, shards=2)),
 ]
 
@@ -50,6 +50,12 @@ def build(B):
     shim = B.compile_c(os.path.join(HERE, "shim.c"))
     core = B.compile_cxx(os.path.join(HERE, "core.cpp"))
     return B.link(os.path.join(B.BUILD, "bin", "C15"), [core, shim] + list(lib.values()), libs=["-lrapidcheck"])
+
+
+def prebuild(B):
+    """setup.sh: warm the caches of both the rapidcheck binary and the fuzz targets."""
+    build(B)
+    build_fuzz(B)
 
 
 # ----------------------------------------------------------------------------- libFuzzer phase (thorough tier)
@@ -66,7 +72,7 @@ FUZZ = [
     ("readpass", 8, 3000000, 2000000, 70000),
     ("getopt", 9, 2500000, 1500000, 4096),
 ]
-FUZZ_MAX_TOTAL_TIME = 200   # seconds; a cap that only ever truncates (reported as fuzz_truncated)
+FUZZ_MAX_TOTAL_TIME = 150   # seconds; a cap that only ever truncates (reported as fuzz_truncated)
 FUZZ_SCALE = float(os.environ.get("C15_FUZZ_SCALE", "1.0"))
 
 
